@@ -1,10 +1,131 @@
+import BoboVerif.Model.Actions
 import BoboVerif.Drivers.Util
-/- driver stub for the Actions model (to be replaced by the real line protocol). -/
+/-
+driver for M-Actions (`bobodrv actions`).  Data are naturals; the behaviour of a user
+action on the event it is given is supplied on the line that hands it over (actions are
+parameters of the model).
+
+  multi <stop:0/1> <bits>                 sub-action i returns (bit i, i)   -> <succ> <s:d,s:d,...|->
+  bnew <max>                                                                -> ok
+  bh <name> <evid> <succ> <data>          blocking handle                   -> ok | full
+  bget                                                                      -> none | <name> <evid> <succ> <data>
+  pnew <workers> <max>                                                      -> ok
+  psub <name> <evid> <succ> <data>        pool handle (then eager starts)   -> ok | full
+  pfin <evid>                             that running task finishes (then eager starts) -> ok | not-running
+  pget                                                                      -> none | <name> <evid> <succ> <data>
+  pstat                                                                     -> <waiting> <running> <queued>
+  fnew                                    forwarder over a blocking handler -> ok
+  fph <phenomenon> <action|->             register a phenomenon             -> ok
+  fev <evid> <phenomenon> <pattern> <succ> <data>   on_producer_update (the outcome its action would give) -> ok
+  fupd                                    update()                          -> <ret> - | <ret> <id> <ts> <data> <phen> <pat> <action> <succ>
+-/
 namespace Bobo.Drv.Actions
+open Bobo.Actions
 
 structure DS where
-  dummy : Unit := ()
+  bmax    : Nat := 0
+  b       : BTrace Nat := {}
+  workers : Nat := 1
+  pmax    : Nat := 0
+  p       : PTrace Nat := {}
+  phen    : List (String × Option String) := []
+  table   : List (String × (Bool × Nat)) := []
+  f       : FSt Nat := {}
 
-def step (d : DS) (_line : String) : DS × String := (d, "unimplemented")
+def bit? : String → Option Bool
+  | "0" => some false
+  | "1" => some true
+  | _ => none
+
+def cev (evid : String) : CEv := ⟨evid, "ph_" ++ evid, "pt_" ++ evid⟩
+
+def constAction (name : String) (s : Bool) (d : Nat) : Action Nat := ⟨name, fun _ => (s, d)⟩
+
+def respStr (r : Resp Nat) : String :=
+  r.actionName ++ " " ++ r.complexEvent.eventId ++ " " ++ boolStr r.success ++ " " ++ toString r.data
+
+/-- start tasks while a worker is free and a task is waiting (what a real pool does by itself). -/
+def eagerStart (workers maxSize : Nat) (t : PTrace Nat) : Nat → PTrace Nat
+  | 0 => t
+  | n + 1 =>
+    if t.st.waiting.isEmpty || t.st.running.length ≥ workers then t
+    else eagerStart workers maxSize (pStep workers maxSize t .start) n
+
+def multiStr (r : Bool × List (Bool × Nat)) : String :=
+  boolStr r.1 ++ " " ++ (if r.2.isEmpty then "-" else ",".intercalate (r.2.map (fun o => boolStr o.1 ++ ":" ++ toString o.2)))
+
+def step (d : DS) (line : String) : DS × String :=
+  match words line with
+  | ["multi", stop, bits] =>
+    match bit? stop with
+    | some stop =>
+      let cs := bits.toList
+      if cs.isEmpty || !(cs.all (fun c => c == '0' || c == '1')) then (d, "bad-op")
+      else
+        let acts : List (CEv → Bool × Nat) := (List.range cs.length).map (fun i => fun _ => (cs.getD i '0' == '1', i))
+        (d, multiStr (multiExecute acts stop (cev "m")))
+    | none => (d, "bad-op")
+  | ["bnew", m] =>
+    match parseNat? m with
+    | some m => ({ d with bmax := m, b := {} }, "ok")
+    | none => (d, "bad-op")
+  | ["bh", name, evid, s, dat] =>
+    match bit? s, parseNat? dat with
+    | some s, some dat =>
+      let n0 := d.b.dropped.length
+      let b' := bStep d.bmax d.b (.handle (constAction name s dat) (cev evid))
+      ({ d with b := b' }, if b'.dropped.length > n0 then "full" else "ok")
+    | _, _ => (d, "bad-op")
+  | ["bget"] =>
+    let n0 := d.b.got.length
+    let b' := bStep d.bmax d.b .get
+    ({ d with b := b' }, match b'.got.drop n0 with | [] => "none" | r :: _ => respStr r)
+  | ["pnew", w, m] =>
+    match parseNat? w, parseNat? m with
+    | some w, some m => if w = 0 then (d, "bad-op") else ({ d with workers := w, pmax := m, p := {} }, "ok")
+    | _, _ => (d, "bad-op")
+  | ["psub", name, evid, s, dat] =>
+    match bit? s, parseNat? dat with
+    | some s, some dat =>
+      let n0 := d.p.refused.length
+      let p' := pStep d.workers d.pmax d.p (.submit (constAction name s dat) (cev evid))
+      let p'' := eagerStart d.workers d.pmax p' (p'.st.waiting.length)
+      ({ d with p := p'' }, if p'.refused.length > n0 then "full" else "ok")
+    | _, _ => (d, "bad-op")
+  | ["pfin", evid] =>
+    match d.p.st.running.findIdx? (fun q => q.2.eventId == evid) with
+    | some i =>
+      let p' := pStep d.workers d.pmax d.p (.finish i)
+      ({ d with p := eagerStart d.workers d.pmax p' (p'.st.waiting.length) }, "ok")
+    | none => (d, "not-running")
+  | ["pget"] =>
+    let n0 := d.p.got.length
+    let p' := pStep d.workers d.pmax d.p .get
+    ({ d with p := p' }, match p'.got.drop n0 with | [] => "none" | r :: _ => respStr r)
+  | ["pstat"] =>
+    (d, toString d.p.st.waiting.length ++ " " ++ toString d.p.st.running.length ++ " " ++ toString d.p.st.queue.length)
+  | ["fnew"] => ({ d with phen := [], table := [], f := {} }, "ok")
+  | ["fph", ph, act] =>
+    if d.phen.any (·.1 == ph) then (d, "dup")
+    else ({ d with phen := d.phen ++ [(ph, if act = "-" then none else some act)] }, "ok")
+  | ["fev", evid, ph, pat, s, dat] =>
+    match bit? s, parseNat? dat with
+    | some s, some dat =>
+      ({ d with table := d.table ++ [(evid, (s, dat))], f := { d.f with queue := d.f.queue ++ [⟨evid, ph, pat⟩] } }, "ok")
+    | _, _ => (d, "bad-op")
+  | ["fupd"] =>
+    let tbl := d.table
+    let phenomena : List (String × Option (Action Nat)) :=
+      d.phen.map (fun p => (p.1, p.2.map (fun name =>
+        (⟨name, fun e => ((tbl.find? (·.1 == e.eventId)).map (·.2)).getD (false, 4000000000)⟩ : Action Nat))))
+    let n0 := d.f.out.length
+    let (f', ret) := fUpdate phenomena (fun n => "id" ++ toString n) (fun n => 1000 + n) d.f
+    let pub := match f'.out.drop n0 with
+      | [] => "-"
+      | [x] => x.eventId ++ " " ++ toString x.timestamp ++ " " ++ toString x.data ++ " " ++ x.phenomenon ++ " " ++
+               x.pattern ++ " " ++ x.actionName ++ " " ++ boolStr x.success
+      | _ => "more-than-one"
+    ({ d with f := f' }, boolStr ret ++ " " ++ pub)
+  | _ => (d, "bad-op")
 
 end Bobo.Drv.Actions
